@@ -36,7 +36,7 @@ Definition monitor (c : case) : list N :=
   let e := c_err c in let o := c_obs c in
   let w := o_wrap o in let q := o_queue o in
   (if wa e && negb (coherent w) then [1%N] else []) ++
-  (if wa e && negb (coherent (on_wire q)) then [2%N] else []) ++
+  (if wa e && negb (coherent q) then [2%N] else []) ++
   (if wa e && negb (has_deadline e) && negb (Bool.eqb (Z.eqb (cls (r_code w)) 4) (o_is_temp o)) then [3%N] else []) ++
   (if wa e && negb (Bool.eqb (Z.eqb (cls (r_code q)) 4) (o_is_temp_unspec o)) then [4%N] else []) ++
   (if c_mangle c && negb (ascii_only (r_msg w)) then [5%N] else []) ++
